@@ -278,7 +278,18 @@ func runPkgHash() {
 			for idx := wi; idx < len(cases); idx += nw {
 				c := &cases[idx]
 				if corrupt == "chg" && idx == 0 && len(c.Chg) > 0 {
-					c.Chg[0] = !c.Chg[0] // binding demonstration: damage one expected field
+					c.Chg[0] = !c.Chg[0] // damaged record: flag and keys disagree -> rejected as malformed (exit 2)
+				}
+				if corrupt == "key" && idx == 0 && len(c.Chg) > 0 {
+					// binding demonstration: damage the expected key after step 1 (consistently with its flag)
+					if c.Chg[0] {
+						c.Keys[1], c.Chg[0] = c.Keys[0], false
+					} else {
+						c.Keys[1], c.Chg[0] = append([]phKey{{N: "zz.go", S: 9, T: 9}}, c.Keys[0]...), true
+					}
+					if len(c.Chg) > 1 {
+						c.Chg[1] = keyString(c.Keys[2]) != keyString(c.Keys[1])
+					}
 				}
 				runHistory(w, idx, c)
 			}
@@ -356,8 +367,8 @@ func runHistory(w *phWorker, idx int, c *phCase) {
 		ks := keyString(c.Keys[i+1])
 		keyChanged := ks != prevKey
 		if keyChanged != c.Chg[i] {
-			// the record's own flag disagrees with its keys: the case file was damaged
-			fail("case-inconsistent", fmt.Sprintf("step %d: chg=%v but keys {%s} -> {%s}", i+1, c.Chg[i], prevKey, ks))
+			// the record's own flag disagrees with its keys: the case file was damaged (not a verdict)
+			fatal(fmt.Sprintf("pkghash: malformed case %d, step %d: chg=%v but keys {%s} -> {%s}", idx, i+1, c.Chg[i], prevKey, ks))
 		}
 		hashChanged := h != prev
 		cls := opClass(op, dirOp)
